@@ -252,7 +252,7 @@ def packet_rules(ctx, prog, rule_pair, rule_len, rule_align):
         comps = leaves(pl)
         has6 = any(const_val(x) == 6 for x in comps if x[0] == "const")
         has2n = any(x[0] == "binop" and x[1] == "Mul" and 2 in (const_val(x[2]), const_val(x[3])) for x in comps)
-        round4 = any(x[0] == "binop" and x[1] == "Rem" and const_val(x[3]) == 4 for x in comps) or any(x[0] == "call" and x[1].endswith("next_multiple_of") for x in comps) or any(x[0] == "binop" and x[1] == "BitAnd" for x in comps)
+        round4 = round_up_base(pl, 4) is not None
         ctx.ob(rule_len, "packet-length-formula/%s" % short(f.path), has6 and has2n and round4,
                "packet_length = %s ; needs header size 6, 2 bytes per stream, the stream sizes, and rounding up to a multiple of 4" % txt[:300], where=f.file_line(bi, si))
         # guard: packet_length > u16::MAX -> error dominates header write
@@ -277,6 +277,53 @@ def packet_rules(ctx, prog, rule_pair, rule_len, rule_align):
     S6 = Steps(ctx, f, rule_align)
     S6.step("align", calls_where(f, lambda c, t, R: c == ALIGN))
     S6.must_pass("align")
+
+
+def round_up_base(t, m):
+    """U when the tree is U rounded up to the next multiple of m (m a power of two) in one of the usual spellings:
+    U.next_multiple_of(m) | U + (m - U % m) % m | if U % m != 0 { U + (m - U % m) } else { U } | (U + m-1) / m * m |
+    (U + m-1) & !(m-1);  None otherwise (in particular for U + (m - U % m), which adds m to aligned values)"""
+    def sc(x):
+        x = strip(x)
+        while x[0] == "cast":
+            x = strip(x[2])
+        return x
+
+    def is_rem(x, u):
+        x = sc(x)
+        return x[0] == "binop" and x[1] == "Rem" and sc(x[2]) == u and const_val(x[3]) == m
+
+    def is_gap(x, u):
+        x = sc(x)          # m - u % m
+        return x[0] == "binop" and x[1] == "Sub" and const_val(x[2]) == m and is_rem(x[3], u)
+    t = sc(t)
+    if t[0] == "call" and t[1].endswith("next_multiple_of") and len(t[2]) == 2 and const_val(t[2][1]) == m:
+        return sc(t[2][0])
+    if t[0] == "binop" and t[1] == "Add":
+        for u, g in ((sc(t[2]), sc(t[3])), (sc(t[3]), sc(t[2]))):
+            if g[0] == "binop" and g[1] == "Rem" and const_val(g[3]) == m and is_gap(g[2], u):
+                return u
+    if t[0] == "phi" and len(t[1]) == 2:
+        for u, other in ((sc(t[1][0]), sc(t[1][1])), (sc(t[1][1]), sc(t[1][0]))):
+            if other[0] == "binop" and other[1] == "Add":
+                for a, g in ((sc(other[2]), other[3]), (sc(other[3]), other[2])):
+                    if a == u and is_gap(g, u):
+                        return u
+                    # `let mut x = U; if x % m != 0 { x += m - x % m }`: the update refers to the variable itself
+                    if a[0] == "local" and is_gap(g, a):
+                        return u
+    if t[0] == "binop" and t[1] == "Mul" and const_val(t[3]) == m:
+        q = sc(t[2])
+        if q[0] == "binop" and q[1] == "Div" and const_val(q[3]) == m:
+            a = sc(q[2])
+            if a[0] == "binop" and a[1] == "Add" and const_val(a[3]) == m - 1:
+                return sc(a[2])
+    if t[0] == "binop" and t[1] == "BitAnd":
+        for a, k in ((sc(t[2]), t[3]), (sc(t[3]), t[2])):
+            kv = const_val(k)
+            if kv is not None and (kv & (m - 1)) == 0 and ((kv >> 2) & 1) == 1 and a[0] == "binop" and a[1] == "Add" and const_val(a[3]) == m - 1:
+                return sc(a[2])
+    return None
 
 
 def raw_reader_count(ctx, prog, rule, path="<pc_reader_raw::PointCloudReaderRaw<'_, T> as std::iter::Iterator>::next", adt="pc_reader_raw::PointCloudReaderRaw", records=("records",), yield_from=None):
